@@ -121,6 +121,49 @@ Section EnvelopeSound.
     intros Hb Hd. destruct (env_unmarshal_exact _ _ _ _ Hb Hd) as (he & body & -> & L & Lb & _).
     unfold len in *. rewrite app_length. lia.
   Qed.
+  (* conditional byte-level fixed point of the envelope, for the type bytes [P] whose body decoder
+     has one: what Unmarshal accepted and Marshal re-encodes is not longer than the input, decodes
+     again, and re-encodes to itself *)
+  Variable P : N -> bool.
+  Hypothesis m_dec_type : forall kx ty b m, mdec kx ty b = Some m -> mtype m = ty.
+  Hypothesis m_refix : forall kx ty b m e, P ty = true -> bytes_ok b = true ->
+    mdec kx ty b = Some m -> menc m = Some e ->
+    (length e <= length b)%nat /\ exists m', mdec kx ty e = Some m' /\ menc m' = Some e /\ mtype m' = ty.
+
+  Theorem env_refix kx b x e : bytes_ok b = true -> unm kx b = Some x -> P (hh_type (fst x)) = true ->
+    mar x = Some e ->
+    (length e <= length b)%nat /\ exists x', unm kx e = Some x' /\ mar x' = Some e.
+  Proof.
+    destruct x as [h m]. cbn [fst]. intros Hb Hd HP He. unfold env_unmarshal in Hd.
+    destruct (dec c_hs_header b) as [[h0 body]|] eqn:Eh; [|discriminate].
+    destruct (N.eqb_spec (len body) (hh_len h0)) as [Hl|]; [|discriminate]. cbn [negb] in Hd.
+    destruct (N.eqb_spec (hh_len h0) (hh_flen h0)) as [Hfl|]; [|discriminate]. cbn [negb] in Hd.
+    destruct (mdec kx (hh_type h0) body) as [m0|] eqn:Em; [|discriminate].
+    inversion Hd; subst h0 m0; clear Hd.
+    destruct (decok_hs_header _ _ _ Hb Eh) as [Wh [he0 [p [Ehe0 [Hbp Lp]]]]].
+    assert (Hbody : bytes_ok body = true) by (rewrite Hbp in Hb; apply (bytes_ok_app_inv _ _ Hb)).
+    unfold env_marshal in He.
+    destruct (N.eqb_spec (hh_foff h) 0) as [Hfo|]; [|discriminate]. cbn [negb] in He.
+    destruct (menc m) as [body'|] eqn:Eb; [|discriminate].
+    destruct (m_refix _ _ _ _ _ HP Hbody Em Eb) as [Lb [m' [Dm' [Em' Tm']]]].
+    destruct h as [t [l [ms [fo fl]]]].
+    unfold hh_type, hh_len, hh_mseq, hh_foff, hh_flen in *; cbn [fst snd] in *.
+    pose proof (proj1 (hs_header_wf t l ms fo fl) Wh) as (H1 & H2 & H3 & H4 & H5).
+    assert (Hlb : len body' < 16777216) by (unfold len in *; lia).
+    pose proof (m_dec_type _ _ _ _ Em) as Tm.
+    assert (Wh' : wf c_hs_header (mk_hshdr (mtype m) (len body') ms 0 (len body')) = true).
+    { apply hs_header_wf. rewrite Tm. lia. }
+    destruct (sound_hs_header _ body' Wh') as [he [Ehe Dhe]]. rewrite Ehe in He.
+    inversion He; subst e; clear He.
+    pose proof (hs_header_enc_len _ _ Ehe) as Lhe. pose proof (hs_header_enc_len _ _ Ehe0) as Lhe0.
+    split.
+    { rewrite Hbp, !app_length. lia. }
+    exists (mk_hshdr (mtype m) (len body') ms 0 (len body'), m'). split.
+    - unfold env_unmarshal. rewrite Dhe. unfold mk_hshdr, hh_len, hh_flen, hh_type; cbn [fst snd].
+      rewrite N.eqb_refl. cbn [negb]. rewrite Tm, Dm'. reflexivity.
+    - unfold env_marshal, mk_hshdr, hh_foff, hh_mseq; cbn [fst snd N.eqb negb]. rewrite Em'.
+      rewrite Tm', <- Tm. fold (mk_hshdr (mtype m) (len body') ms 0 (len body')). rewrite Ehe. reflexivity.
+  Qed.
 End EnvelopeSound.
 
 (* ------------------------------------------------------------------ the full switch *)
@@ -231,6 +274,41 @@ Proof.
   destruct (negb (hh_len h =? hh_flen h)); [discriminate|].
   destruct (msg_dec kx (hh_type h) body) as [m|] eqn:E; [|discriminate].
   intro Hx. inversion Hx; subst x. cbn [fst snd]. rewrite (msgx_dec_base _ _ _ _ E). reflexivity.
+Qed.
+
+(* the types whose body decoder has a byte-level fixed point proved: everything but ServerHello (no
+   length bound proved for its re-encoding), ServerKeyExchange (refuted below) and
+   CertificateRequest *)
+Definition refix_type (ty : N) : bool := negb (memN ty [2; 12; 13]).
+
+Lemma msgx_refix kx ty b m e : refix_type ty = true -> bytes_ok b = true ->
+  msgx_dec kx ty b = Some m -> msgx_enc m = Some e ->
+  (length e <= length b)%nat /\
+  exists m', msgx_dec kx ty e = Some m' /\ msgx_enc m' = Some e /\ msgx_type m' = ty.
+Proof.
+  intros HP Hb. unfold msgx_dec.
+  repeat match goal with
+         | |- context [if ?x =? ?y then _ else _] => destruct (N.eqb_spec x y) as [->|]
+         end; try discriminate; try (vm_compute in HP; discriminate);
+    match goal with |- omap _ ?o = _ -> _ => destruct o as [v|] eqn:E; [|discriminate] end;
+    cbn [omap]; intro Hx; inversion Hx; subst m; clear Hx; cbn [msgx_enc]; intro He.
+  - destruct (wrefix_of _ (proj1 client_hello_ok) (proj1 (proj2 client_hello_ok)) _ _ _ Hb E He) as [L [a' [D' E']]].
+    split; [exact L|]. eexists. rewrite D'. cbn [omap]. split; [reflexivity|]. cbn [msgx_enc msgx_type]. split; [exact E'|reflexivity].
+  - destruct (wrefix_of _ (proj1 new_session_ticket_ok) (proj1 (proj2 new_session_ticket_ok)) _ _ _ Hb E He) as [L [a' [D' E']]].
+    split; [exact L|]. eexists. rewrite D'. cbn [omap]. split; [reflexivity|]. cbn [msgx_enc msgx_type]. split; [exact E'|reflexivity].
+  - destruct (wrefix_of _ (proj1 encrypted_extensions_ok) (proj1 (proj2 encrypted_extensions_ok)) _ _ _ Hb E He) as [L [a' [D' E']]].
+    split; [exact L|]. eexists. rewrite D'. cbn [omap]. split; [reflexivity|]. cbn [msgx_enc msgx_type]. split; [exact E'|reflexivity].
+  - destruct (msg_refix _ _ _ _ _ Hb E He) as [L [m' [D' [E' T']]]].
+    split; [exact L|]. exists (XBase m'). rewrite D'. cbn [omap msgx_enc msgx_type]. repeat split; assumption.
+Qed.
+
+(* PARTIAL (named so): the byte-level fixed point of the full envelope for every type but ServerHello,
+   ServerKeyExchange and CertificateRequest *)
+Theorem hsx_refix_partial kx b x e : bytes_ok b = true -> hsx_unmarshal kx b = Some x ->
+  refix_type (hh_type (fst x)) = true -> hsx_marshal x = Some e ->
+  (length e <= length b)%nat /\ exists x', hsx_unmarshal kx e = Some x' /\ hsx_marshal x' = Some e.
+Proof.
+  exact (env_refix _ _ _ _ _ msgx_roundtrip msgx_type_byte refix_type msgx_dec_type msgx_refix kx b x e).
 Qed.
 
 (* REFUTED for the full switch: "what Unmarshal accepts re-encodes to a fixed point" - inherited
